@@ -280,6 +280,19 @@ def main(ctx, prop):
                                         finding=st_['finding'], key='corestep'))
         if prop == 'C10':
             extra['resumed_prefix_states'] = sum(len(c.get('resume', [])) for c in allcases)
+        if prop in ('C01', 'C08', 'C10'):
+            # ASA crypto maps, crypto ACLs, transform-sets, ipsec-proposals on Cisco/Vpn.v
+            from vlib import asavpn
+            nv = (60 if q == 0 else 1500)
+            vp = asavpn.family(ctx, nv, resume=({'C10': 12}.get(prop, 0) if q == 0 else {'C10': 300}.get(prop, 0)))
+            key = {'C01': 'conv', 'C08': 'refused', 'C10': 'resume'}[prop]
+            for f in vp[key]:
+                failing.append(dict(what=f['what'], replay=dict(f['replay'], property=prop), finding=f.get('finding'), key='vpn-' + f['what'][:50]))
+            if prop == 'C01':
+                for f in vp['refused']:
+                    failing.append(dict(what=f['what'], replay=dict(f['replay'], property=prop), finding=None, key='vpn-refused'))
+            breaks += vp['breaks']
+            extra['asa_crypto_cases'] = vp['stats']
         cov = CC.coverage(allcases, S['fam'][0], extra)
         cov['families'] = ['IOS' if f else 'ASA' for f in S['fam']]
     cov = C.proof_coverage(ctx, cov)
@@ -287,6 +300,7 @@ def main(ctx, prop):
         'strict device semantics of coq/theories/Cisco/Device.v (a model of ASA/IOS written from the property text and the '
         'repository\'s comments; real devices are not available)',
         'the harness parses the printed script back into device commands (vlib/cisco.py parse_cmd); an unknown command counts as refused',
-        'crypto maps, tunnel-groups, group-policies, users, pools, certificate maps are not generated (modelled: no; verified: no)',
+        'ASA crypto maps with crypto ACLs, transform-sets and ipsec-proposals are executed on a separate device model (Cisco/Vpn.v, no theorem); '
+        'tunnel-groups, group-policies, users, pools, certificate maps are not generated (modelled: no; verified: no)',
     ]
     return C.finish(ctx, failing, breaks, cov, assumptions)
